@@ -20,15 +20,13 @@ def run(tier, seed, replay=None):
     return run_rep(PROP, RUN_FN, REGIONS, TRUSTED, RULE, tier, seed, replay)
 
 
-def run_rep(prop, run_fn, regions, trusted, rule, tier, seed, replay, extra=None):
-    chk = core.Check(prop, tier, seed)
-    proof = core.proof_step(prop, thorough=(tier == "thorough"))
-    r = flow.rng(seed, prop.lower())
-    cases = [replay["replay"]["case_full"]] if replay and "case_full" in replay["replay"] else rc.gen_cases(r, tier)
+def rep_phase(chk, prop, run_fn, regions, cases, component="representation operators"):
+    """drives operation sequences on the representations, evaluates model and contract inside Coq, reports violations.
+    Returns None when the driver failed, else a dict with the expanded cases, failures and region hits."""
     res = core.run_impl("reps", {"cases": cases}, timeout=1500)
     if isinstance(res, dict) and res.get("driver_failed"):
         chk.violation("correspondence", "the representations could not be driven (they no longer check): " + res["stderr"][-600:], {"component": "representations", "stderr": res["stderr"]}, False)
-        return chk.finish(proof, trusted, {"evaluations": 0, "distinct_nontrivial": 0}, rule)
+        return None
     ecs, eos = rc.expand(cases, res)
     terms = [rc.to_coq(c, o) for c, o in zip(ecs, eos)]
     known = {k["id"]: k for k in core.known_findings(prop)}
@@ -38,7 +36,9 @@ def run_rep(prop, run_fn, regions, trusted, rule, tier, seed, replay, extra=None
     for rid, h in zip(regions, lists[2:]):
         if h:
             if rid in known:
-                chk.known_hit.append(f"{rid}: {known[rid]['what_fails']}")
+                line = f"{rid}: {known[rid]['what_fails']}"
+                if line not in chk.known_hit:
+                    chk.known_hit.append(line)
                 hits[rid] = len(h)
             else:
                 orac = sorted(set(orac) | set(h))
@@ -53,17 +53,14 @@ def run_rep(prop, run_fn, regions, trusted, rule, tier, seed, replay, extra=None
         if seen_kinds[kk] > 1 or len(chk.violations) >= 8:
             continue
         chk.violation("oracle", f"[{c['rep']['kind']} representation] " + rc.describe(c, o),
-                      {"component": "representation operators", "driver": "reps", "case": c, "case_full": full.get((c.get("seed"), str(c["rep"]))), "observed": o, "coq_term": terms[i][:4000]}, True)
+                      {"component": component, "driver": "reps", "case": c, "case_full": full.get((c.get("seed"), str(c["rep"]))), "observed": o, "coq_term": terms[i][:4000]}, True)
     corr_only = [i for i in corr if i not in set(orac)]
     if corr_only and not chk.violations:
         i = min(corr_only, key=lambda j: len(terms[j]))
         c, o = ecs[i], eos[i]
         chk.violation("correspondence", f"model and implementation disagree on {len(corr_only)} of {len(ecs)} representation operations; the property is no longer shown to hold there. Smallest: " + rc.describe(c, o),
-                      {"component": "representation operators", "correspondence_no_longer_checks": f"{c['rep']['kind']}.{c['op']}", "driver": "reps", "case": c,
+                      {"component": component, "correspondence_no_longer_checks": f"{c['rep']['kind']}.{c['op']}", "driver": "reps", "case": c,
                        "case_full": full.get((c.get("seed"), str(c["rep"]))), "observed": o, "coq_term": terms[i][:4000], "mismatches": len(corr_only)}, False)
-    extra_cov = extra(chk, cases, res) if extra else {}
-    if replay:
-        print("replayed", len(ecs), "operations: correspondence", "FAILS" if corr else "ok", "| contract", "FAILS" if orac else "holds")
     dist = {}
     for c in ecs:
         key = f"{c['rep']['kind']}.{c['op']}"
@@ -73,13 +70,28 @@ def run_rep(prop, run_fn, regions, trusted, rule, tier, seed, replay, extra=None
         e = (o.get("rec", {}).get("res") or {}).get("exc")
         if e:
             errs[e] = errs.get(e, 0) + 1
+    return {"res": res, "ecs": ecs, "eos": eos, "terms": terms, "corr": corr, "orac": orac, "hits": hits, "operations": dist, "errors": errs}
+
+
+def run_rep(prop, run_fn, regions, trusted, rule, tier, seed, replay, extra=None):
+    chk = core.Check(prop, tier, seed)
+    proof = core.proof_step(prop, thorough=(tier == "thorough"))
+    r = flow.rng(seed, prop.lower())
+    cases = [replay["replay"]["case_full"]] if replay and "case_full" in replay["replay"] else rc.gen_cases(r, tier)
+    ph = rep_phase(chk, prop, run_fn, regions, cases)
+    if ph is None:
+        return chk.finish(proof, trusted, {"evaluations": 0, "distinct_nontrivial": 0}, rule)
+    ecs, eos, terms, corr, orac = ph["ecs"], ph["eos"], ph["terms"], ph["corr"], ph["orac"]
+    extra_cov = extra(chk, cases, ph["res"]) if extra else {}
+    if replay:
+        print("replayed", len(ecs), "operations: correspondence", "FAILS" if corr else "ok", "| contract", "FAILS" if orac else "holds")
     chk.samples = [{"rep": c["rep"], "op": c["op"], "observed": {k: (str(v)[:300]) for k, v in o.get("rec", {}).items() if k in ("inputs", "res", "changed")}} for c, o in list(zip(ecs, eos))[:: max(1, len(ecs) // 4)]][:4]
     cov = {
         "evaluations": len(ecs), "operation_sequences": len(cases),
         "distinct_nontrivial": len({t for t, c in zip(terms, ecs) if c["op"] in ("mutate", "cross", "map")}),
         "traces_validated_against_impl": len(ecs),
-        "correspondence_mismatches": len(corr), "oracle_failures": len(orac), "known_region_hits": hits,
-        "input_distribution": {"operations": dist, "error_kinds_observed": errs},
+        "correspondence_mismatches": len(corr), "oracle_failures": len(orac), "known_region_hits": ph["hits"],
+        "input_distribution": {"operations": ph["operations"], "error_kinds_observed": ph["errors"]},
         "exhaustive": False,
     }
     cov.update(extra_cov)
